@@ -7,7 +7,7 @@ use isograph_lang_types::{
     ScalarSelectionDirectiveSet, SelectionSet, SelectionType,
 };
 use prelude::{ErrClone, Postfix};
-use std::collections::HashSet;
+use std::collections::{BTreeMap, BTreeSet, HashSet};
 
 use crate::{
     ClientFieldVariant, CompilationProfile, FlattenedDataModelEntity, IsographDatabase,
@@ -21,6 +21,8 @@ pub(crate) fn validate_selection_sets<TCompilationProfile: CompilationProfile>(
     let selection_sets = reader_selection_set_map(db);
 
     let mut errors = vec![];
+    // (declaring client selectable) -> (client selectable it selects, where)
+    let mut client_selectable_edges: ClientSelectableEdges = BTreeMap::new();
     for (key, selection_set) in selection_sets {
         let selection_set = match selection_set.clone_err() {
             Ok(s) => s,
@@ -57,9 +59,59 @@ pub(crate) fn validate_selection_sets<TCompilationProfile: CompilationProfile>(
                 parent_entity_name: key.0,
                 selectable_name: key.1,
             },
+            &mut client_selectable_edges,
         )
     }
 
+    errors.extend(validate_no_recursive_client_selectables(
+        &client_selectable_edges,
+    ));
+
+    errors
+}
+
+type ClientSelectableKey = (EntityName, SelectableName);
+type ClientSelectableEdges =
+    BTreeMap<ClientSelectableKey, Vec<(ClientSelectableKey, EmbeddedLocation)>>;
+
+/// A client field or pointer that (transitively) selects itself cannot be merged into
+/// a finite selection set; the merging code would recurse forever. Report the
+/// selections that close a cycle.
+fn validate_no_recursive_client_selectables(edges: &ClientSelectableEdges) -> Vec<Diagnostic> {
+    fn visit(
+        node: ClientSelectableKey,
+        edges: &ClientSelectableEdges,
+        done: &mut BTreeSet<ClientSelectableKey>,
+        stack: &mut Vec<ClientSelectableKey>,
+        errors: &mut Vec<Diagnostic>,
+    ) {
+        if done.contains(&node) {
+            return;
+        }
+        stack.push(node);
+        for (target, location) in edges.get(&node).into_iter().flatten() {
+            if stack.contains(target) {
+                errors.push(Diagnostic::new(
+                    format!(
+                        "In `{}.{}`, `{}.{}` is selected, but `{}.{}` (transitively) \
+                        selects `{}.{}`. Recursive client fields are not supported.",
+                        node.0, node.1, target.0, target.1, target.0, target.1, node.0, node.1
+                    ),
+                    (*location).to::<Location>().wrap_some(),
+                ));
+            } else {
+                visit(*target, edges, done, stack, errors);
+            }
+        }
+        stack.pop();
+        done.insert(node);
+    }
+
+    let mut errors = vec![];
+    let mut done = BTreeSet::new();
+    for node in edges.keys() {
+        visit(*node, edges, &mut done, &mut vec![], &mut errors);
+    }
     errors
 }
 
@@ -71,6 +123,7 @@ fn validate_selection_set<TCompilationProfile: CompilationProfile>(
     selection_set: &SelectionSet,
     parent_entity: &FlattenedDataModelEntity<TCompilationProfile>,
     selectable_declaration_info: EntityNameAndSelectableName,
+    client_selectable_edges: &mut ClientSelectableEdges,
 ) {
     let mut encountered_names_or_aliases = HashSet::new();
 
@@ -152,7 +205,23 @@ fn validate_selection_set<TCompilationProfile: CompilationProfile>(
                         selectable.server_defined()
                     }
                     DefinitionLocation::Client(c) => match c {
-                        SelectionType::Scalar(s) => s.client_defined(),
+                        SelectionType::Scalar(s) => {
+                            let client_scalar_selectable = s.lookup(db);
+                            client_selectable_edges
+                                .entry((
+                                    selectable_declaration_info.parent_entity_name,
+                                    selectable_declaration_info.selectable_name,
+                                ))
+                                .or_default()
+                                .push((
+                                    (
+                                        client_scalar_selectable.parent_entity_name,
+                                        client_scalar_selectable.name,
+                                    ),
+                                    scalar_selection.name.location,
+                                ));
+                            s.client_defined()
+                        }
                         SelectionType::Object(_) => {
                             errors.push(selection_wrong_selection_type_diagnostic(
                                 parent_entity.name.item,
@@ -316,7 +385,23 @@ fn validate_selection_set<TCompilationProfile: CompilationProfile>(
                             ));
                             continue;
                         }
-                        SelectionType::Object(o) => o.client_defined(),
+                        SelectionType::Object(o) => {
+                            let client_object_selectable = o.lookup(db);
+                            client_selectable_edges
+                                .entry((
+                                    selectable_declaration_info.parent_entity_name,
+                                    selectable_declaration_info.selectable_name,
+                                ))
+                                .or_default()
+                                .push((
+                                    (
+                                        client_object_selectable.parent_entity_name,
+                                        client_object_selectable.name,
+                                    ),
+                                    object_selection.name.location,
+                                ));
+                            o.client_defined()
+                        }
                     },
                 };
 
@@ -370,6 +455,7 @@ fn validate_selection_set<TCompilationProfile: CompilationProfile>(
                     &object_selection.selection_set.item,
                     new_parent_entity,
                     selectable_declaration_info,
+                    client_selectable_edges,
                 );
             }
         }
